@@ -464,7 +464,20 @@ impl<T: Clone> RawTable<T> {
             // sure an empty table really is pristine first (`clear` skips empty tables).
             self.table.clear_no_drop();
         }
-        self.table.clone_from_with_hasher(&source.table, &hasher);
+        // If `T::clone` or the hasher panics while hashbrown re-uses our allocation, its own
+        // panic guard `clear()`s the table -- which does nothing, since the item count is only
+        // set at the very end. The control bytes of the elements cloned so far would then stay
+        // behind: phantom elements that lookups and iteration find but `len()` does not count.
+        // So on unwind, reset the table for real (leaking those clones, like hashbrown does).
+        struct ResetOnUnwind<'a, T>(&'a mut raw::RawTable<T>);
+        impl<T> Drop for ResetOnUnwind<'_, T> {
+            fn drop(&mut self) {
+                self.0.clear_no_drop();
+            }
+        }
+        let guard = ResetOnUnwind(&mut self.table);
+        guard.0.clone_from_with_hasher(&source.table, &hasher);
+        mem::forget(guard);
         // Since we're doing the work of cloning anyway, we might as well carry the leftovers.
         and_carry_with_hasher(&mut self.table, &source.leftovers, hasher);
     }
